@@ -1,12 +1,12 @@
 package as
 
 import (
-	"sync/atomic"
 	"encoding/base64"
 	"encoding/json"
 	"fmt"
 	"math/rand"
 	"strings"
+	"sync/atomic"
 
 	"github.com/buzzfeed/sso/verifharness/world"
 )
